@@ -97,6 +97,29 @@ def run(prop, tier):
                              {"kind": "match", "pattern": long_rules[c["p"] - 1], "listing": UL["stream"],
                               "listing_text": "\n".join(UL["texts"][o["l"]]) + "\n", "observed": o})
     mcases, mverd = mcases + lcases, mverd + lverd
+    # long texts (> 1 MiB, a line ending exactly at character 2**20) with and without blank lines in front: the
+    # stream is the block's instructions repeated, whatever the alignment of the lines to powers of two
+    from . import parseprops
+    U8 = matchpipe.export_universe("Export_C08", f"Export_C08_{tier}.cfg", report)
+    block = U8["scale_block"]
+    sc = [(k, t) for k, t in parseprops.scale_cases(block, tier) if k >= 4000][:1]
+    stexts, sreps = [], []
+    for k, t in sc:
+        for lead in ("", "\n", "\n\n\n"):
+            stexts.append(lead + t)
+            sreps.append(k)
+    sobs = parsepipe.parse_texts(stexts, "c16s2")
+    scases = []
+    for k, o in zip(sreps, sobs):
+        c = parsepipe.case("scale", block, [], o)
+        c["reps"] = k
+        scases.append(c)
+    sverd = parsepipe.validate(scases, report, "c16scale")
+    for c, v, t in zip(scases, sverd, stexts):
+        if v.startswith("rej") and len(report.violations) < 50:
+            report.violation("the stream of a long listing depends on blank lines in front of it: " + v[4:],
+                             {"kind": "parse", "mode": "scale", "lines": block, "reps": c["reps"], "leading_newlines": len(t) - len(t.lstrip("\n")),
+                              "observed": {"outcome": c["outcome"], "stream_len": len(c["stream"])}})
     # real objdump variants
     rnd = random.Random(seed() * 31 + 7)
     vs = variants(rnd, 12 if tier == "quick" else 150)
@@ -120,8 +143,8 @@ def run(prop, tier):
             elif len(report.violations) < 50:
                 report.violation(v[4:] + f" (objdump {origin})", {"kind": "parse", "mode": "pair", "lines": a, "lines2": b,
                                                                  "observed": {"stream": c["stream"], "stream2": c["stream2"]}})
-    report.cov["evaluations"] = len(cases) + len(mcases) + len(pcases)
-    report.cov["traces_validated_against_impl"] = len(cases) + len(mcases) + len(pcases)
+    report.cov["evaluations"] = len(cases) + len(mcases) + len(pcases) + len(scases)
+    report.cov["traces_validated_against_impl"] = len(cases) + len(mcases) + len(pcases) + len(scases)
     report.cov["distinct_nontrivial"] = sum(1 for s in states if s["nedits"] >= 1) + len(pcases) - skipped
     report.cov["parts"] = [{"part": "edit states (TLC), each under a plain rule and under a rule with `sections`", "states": len(states), "rejected": sum(v.startswith("rej") for v in verdicts)},
                            {"part": "rule results on edit states", "cases": len(mcases), "rejected": sum(v.startswith("rej") for v in mverd)},
